@@ -7,7 +7,7 @@ dst = os.path.join("/verif/seeded", name)
 os.makedirs(dst, exist_ok=True)
 for f in glob.glob(os.path.join(src, "*")):
     b = os.path.basename(f)
-    if b.startswith("confirm-"):
+    if b.startswith("confirm-") or os.path.isdir(f) or b.endswith(".log"):
         continue
     shutil.copy(f, os.path.join(dst, b))
 meta = json.load(open(os.path.join(src, "meta.json")))
